@@ -70,14 +70,39 @@ P = {
   "Lean theorem mask_spec (irc_check_mask true iff the top min(n,128) bits agree, all a, m, n), pton_safe (no out-of-bounds access for any input), "
   "CIDR/wildcard meaning lemmas; all short strings over the address alphabet and grammar-derived/mutated texts through the real parser under ASan, "
   "agreement with inet_pton where both accept.", "Lean 4 proofs (mask_spec, pton_safe, CIDR lemmas) + exhaustive short-string correspondence incl. libc"),
- "C14": ("conf", True, "see evidence", "Lean 4 proofs on the parser model + correspondence"),
- "C15": ("conf", True, "see evidence", "Lean 4 proofs on the merge model + correspondence"),
- "C16": ("conf", True, "see evidence", "Lean 4 round-trip proofs + correspondence"),
+ "C14": ("conf", True,
+  "Lean 4 theorems for every byte sequence and every prior state: the model of conf_read's parser terminates within a fuel bound derived from the "
+  "input (parse_fuel_suffices), commits none of the memory errors the model can express (cursor in range at every un-read and dereference, no NULL "
+  "passed on, the sizing and decoding passes of the string reader agree), ends in success or one of the five PARSE_* codes, and a failed load "
+  "returns the state, heap and hook log unchanged (failed_load_inert). The real config.c is run under ASan/UBSan on truncations and bit flips of "
+  "valid files and on grammar-mutated junk on top of random prior loads, compared with the model on return code, tree dump and hook log.",
+  "Lean 4 totality/no-fault/atomicity proofs on the parser model + model/implementation correspondence under sanitizers"),
+ "C15": ("conf", True,
+  "Lean 4 theorems for every history of loads and registrations: no merge or registration commits a double free or use-after-free in the ownership "
+  "model (merge_no_fault, history_no_fault), after a successful load every node the file mentions carries the file's value and every other node is "
+  "registered and at its default (load_settles / C15_canonical), a second load of the same content changes nothing and logs no hook "
+  "(load_idempotent), and a setting's hook runs iff one is installed and its effective value changed (str/list/pair_hook_iff). Object-hook "
+  "'membership changed' and list-level preservation by late registration are judged on traces, not proved (see evidence). Differential runs of the "
+  "real code over random sequences of files, registrations at every point and all four node kinds, tree dump + hook log compared with the model.",
+  "Lean 4 invariant/idempotence/hook proofs on the merge model + Spec judge on implementation traces + correspondence"),
+ "C16": ("conf", True,
+  "Lean 4 round-trip theorem: for every document tree with NUL-free strings and every layout of it (quoting and escape choice per byte, bare or "
+  "quoted, parenthesised or comma lists, ';' or newline or no terminator before '}' and at end of input, C/C++ comments and blanks in every gap, "
+  "repeated keys) the model of the parser reads Spec.render back as the canonical tree (C16 / C16_full); typed settings deliver exactly the "
+  "specified value and an unparsable text leaves the cached value in force (typed_spec, typed_reject). Rendered documents and typed texts are run "
+  "through the real config.c and compared with the model and with the Spec tree.",
+  "Lean 4 render/parse round-trip and typed-value proofs + Spec judge + correspondence on rendered documents"),
  "C17": ("proto", True,
   "On the implementation: for pairs (old, new) of service/rule tables (adds, removals, in-place edits) the daemon reloaded from old to new is compared "
   "with a daemon started on new, on probe clients, up to serials/statistics/slot order; Lean lemmas: the model rebuilds its service view and rule "
   "vector from the merged section whenever it changed.", "differential runs (reload vs fresh start) of the implementation + Lean lemmas on config delivery"),
- "C18": ("logeng", True, "see evidence", "Lean 4 proofs on the log routing model + correspondence"),
+ "C18": ("logeng", True,
+  "Lean 4 theorems on the model of src/log.c: after any reachable history of (re)loads the destinations a message of facility f and severity s "
+  "reaches are exactly those the current logs section routes (f, s) to, as a multiset, independent of earlier sections (C18, C18_history, "
+  "C18_multiset; C18_reload states it for every reachable live state of the config+log model, whatever hooks fired during the merge), and every "
+  "record written is the specification's line for that facility, severity and text and goes to a routed destination (C18_lines). The real log.c is loaded with generated sections (ranges, comma lists, '*', case variants, file: and std: destinations) and its "
+  "output files are compared with the model; file-system effects are the runtime facet.",
+  "Lean 4 proofs on the log routing model + Spec judge + correspondence on written files"),
  "C19": ("set", True,
   "Lean 4 theorems (kernel-checked, unbounded): the splay-tree + thread model of src/set.c refines a sorted map for every operation sequence and every "
   "comparator satisfying the order laws, with exactly-once disposal; the stock comparators are proved lawful. Differential correspondence (random "
